@@ -353,8 +353,43 @@ def gen_item(t, r):
             f'| Err _ => ["ERROR"] end) {cm.coq_lines(want)}')
 
 
+# ------------------------------------------------------------------ pure_cflux / label decision
+COQ_HEAD_PURE = 'From FV.C03 Require Import Sections Pure.\nFrom FV.C03.gen Require Import CntSections.\n'
+
+
+def gen_pure_cnt(rng, node_ids, cid):
+    """hand-made .cnt with !CFLUX blocks with / without TYPE= (PURE, other, several blocks)"""
+    lines = ['!VERSION', '5', '!SOLUTION, TYPE=HEAT']
+    shape = rng.choice(['pure', 'pure', 'plain', 'plain+pure', 'pure+plain', 'pure+pure', 'other',
+                        'pure+other', 'pure_empty', 'fixtemp+pure'])
+    for part in shape.split('+'):
+        if part == 'fixtemp':
+            lines.append('!FIXTEMP')
+        else:
+            lines.append({'pure': '!CFLUX, TYPE=PURE', 'plain': '!CFLUX', 'other': '!CFLUX, TYPE=TOTAL',
+                          'pure_empty': '!CFLUX, TYPE=PURE'}[part])
+        if part != 'pure_empty':
+            for _ in range(rng.randint(1, 3)):
+                lines.append(f'{rng.choice(node_ids)},{cm.f2dec(rand_value(rng), 12)}')
+    lines.append('!END')
+    return {'id': cid, 'cnt': lines, 'shape': shape}
+
+
+def show_impl_x(r):
+    out = show_impl(r)
+    if 'read' in r and 'pure_cflux' in r['read']['constraints']:
+        ids, rows = r['read']['constraints']['pure_cflux']
+        out.append('pure_cflux')
+        out += [f'{i},{cm.f2dec(fx(row[0]), 12)}' for i, row in zip(ids, rows)]
+    return out
+
+
+def coq_values_dec(ids, rows):
+    return lib.coq_list([f'({lib.coq_Z(i)}, {cm.coq_dec(cm.f2dec(fx(r[0]), 12))})' for i, r in zip(ids, rows)])
+
+
 # ------------------------------------------------------------------ Coq evaluation
-def coq_failing(ctx, name, items, timeout=900, chunk_bytes=60000):
+def coq_failing(ctx, name, items, timeout=900, chunk_bytes=60000, head_extra=''):
     from concurrent.futures import ThreadPoolExecutor
     files, cur, size = [], [], 0
     for it in items:
@@ -367,7 +402,7 @@ def coq_failing(ctx, name, items, timeout=900, chunk_bytes=60000):
         files.append(cur)
 
     def one(k):
-        txt = [COQ_HEAD, 'Definition cases : list (Z * bool) := [']
+        txt = [COQ_HEAD + head_extra, 'Definition cases : list (Z * bool) := [']
         txt.append(';\n'.join(f'({i}%Z, {e})' for i, e in files[k]) + '].')
         txt.append('Goal True. idtac "@@ failing". Abort.')
         txt.append('Eval vm_compute in map fst (filter (fun c => negb (snd c)) cases).')
@@ -467,6 +502,9 @@ def main(ctx):
     sec_ok = True
     if tie_ok and proof_ok and (lib.COQ / 'C03' / 'PropsSections.v').exists():
         sec_ok, log3 = ctx.build_props('C03/PropsSections.v', scan_dirs=[lib.COQ / 'C03'])
+    pure_ok = True
+    if tie_ok and proof_ok and sec_ok and (lib.COQ / 'C03' / 'PropsPure.v').exists():
+        pure_ok, log4 = ctx.build_props('C03/PropsPure.v', scan_dirs=[lib.COQ / 'C03'])
     model_ok = tie_ok
     if tie_ok and not proof_ok:
         ok, log, _ = lib.coq_make(['C03/Floats.vo'])
@@ -515,6 +553,56 @@ def main(ctx):
     t0 = time.time()
     res2 = cm.run_child(ctx, gjobs, 'phase2')
     ctx.log(f'phase 2 (read {len(gjobs)} hand-made group / expanded files): {time.time() - t0:.1f}s')
+
+    # pure_cflux (additive stream, round 5 extension): hand-made files with !CFLUX blocks with /
+    # without TYPE= read by femio = Pure.read_cntx_with; conditions with 'pure_cflux' alone written
+    # and read back = Pure.write_cntx_of <translated table>; 'cflux' AND 'pure_cflux' = known finding
+    n_pure = {'quick': 16}.get(tier, 80)
+    base_msh = next((res1[i]['msh'] for i in range(len(cases)) if 'msh' in res1[i]), None)
+    base_ids = next((cases[i]['node_ids'] for i in range(len(cases)) if 'msh' in res1[i]), None)
+    pcases, pjobs, wjobs = [], [], []
+    if base_msh is not None:
+        for k in range(n_pure):
+            pc = gen_pure_cnt(ctx.rng, base_ids, k)
+            pcases.append(pc)
+            pjobs.append({'op': 'read', 'id': f'p{k}', 'dir': str(work / f'p{k}'),
+                          'files': {'mesh.msh': base_msh, 'mesh.cnt': '\n'.join(pc['cnt']) + '\n'},
+                          'read': ['mesh.msh', 'mesh.cnt']})
+        for k in range(max(4, n_pure // 4)):
+            m = gen_case(ctx.rng)
+            m.pop('inplace', None)
+            m.pop('constraints_eff', None)
+            ids = ctx.rng.sample(m['node_ids'], ctx.rng.randint(1, min(4, len(m['node_ids']))))
+            m['solution_type'] = 'HEAT'
+            m['constraints'] = {'pure_cflux': [ids, [[float(rand_value(ctx.rng)).hex()] for _ in ids]]}
+            if k == 0:      # both kinds: the known finding
+                ids2 = ctx.rng.sample(m['node_ids'], ctx.rng.randint(1, min(3, len(m['node_ids']))))
+                m['constraints']['cflux'] = [ids2, [[float(rand_value(ctx.rng)).hex()] for _ in ids2]]
+            m['meta'].update({'solution': 'HEAT', 'kinds': sorted(m['constraints'])})
+            wjobs.append({'op': 'write_read', 'id': f'w{k}', 'dir': str(work / f'w{k}'), 'mesh': m,
+                          'read_cnt': True})
+    res3 = cm.run_child(ctx, pjobs + wjobs, 'phase3') if pjobs else {}
+    pure_items = []
+    for pc in pcases:
+        pure_items.append((pc['id'], f'lines_eqb (show_rcntx (read_cntx_with Tables.ignore_pats '
+                                     f'[("ALL", {lib.coq_list([lib.coq_Z(i) for i in base_ids])})] '
+                                     f'{cm.coq_lines(pc["cnt"])})) {cm.coq_lines(show_impl_x(res3["p%d" % pc["id"]]))}'))
+        ctx.count('pure_shape:' + pc['shape'])
+    for j in wjobs:
+        r, m = res3[j['id']], j['mesh']
+        c = m['constraints']
+        cf = f'(Some {coq_values_dec(*c["cflux"])})' if 'cflux' in c else 'None'
+        x = (f'(mkcntx (mkcnt "HEAT" {"true" if m["meta"]["only_solid"] else "false"} None None None None {cf}) '
+             f'(Some {coq_values_dec(*c["pure_cflux"])}))')
+        idx = 1000 + int(j['id'][1:])
+        if 'cnt' in r:
+            pure_items.append((idx, f'lines_eqb (show_lines (write_cntx_of cnt_sections {x})) '
+                                    f'{cm.coq_lines(split_lines(r["cnt"]))}'))
+            pure_items.append((idx + 500, f'lines_eqb (match write_cntx_of cnt_sections {x} with Ok ls => '
+                                          f'show_rcntx (read_cntx_with Tables.ignore_pats [] ls) | Err _ => ["ERROR"] end) '
+                                          f'{cm.coq_lines(show_impl_x(r))}'))
+        else:
+            pure_items.append((idx, 'false'))
 
     # ------------------------------------------------------------ correspondence
     text_items, read_items = [], []
@@ -571,9 +659,11 @@ def main(ctx):
     mask_tables = gen_mask_tables()
     res_gen = run_gen_child(ctx, mask_tables)
     gen_items = [(t['id'], gen_item(t, res_gen[t['id']])) for t in mask_tables]
-    bad_text = bad_read = bad_fmt = bad_gen = None
+    bad_text = bad_read = bad_fmt = bad_gen = bad_pure = None
     if model_ok:
         t0 = time.time()
+        bad_pure = coq_failing(ctx, 'CorrPure', pure_items, head_extra=COQ_HEAD_PURE) if pure_items else []
+        ctx.log(f'pure_cflux / label decision in Coq ({len(pure_items)} items): disagreements {bad_pure}')
         bad_gen = coq_failing(ctx, 'CorrGen', gen_items)
         ctx.log(f'_generate_constraints on all {len(gen_items)} NaN masks in Coq: disagreements {bad_gen}')
         bad_fmt = coq_failing(ctx, 'CorrFmt', fmt_items)
@@ -678,6 +768,33 @@ def main(ctx):
                           'C03_group_expansion / oracle on implementation', found_input=True,
                           signature={'oracle': 'group'},
                           what='group rows and per-member rows are read differently')
+    for j in wjobs:
+        r, m = res3[j['id']], j['mesh']
+        want = Counter((k, i, fx(row[0]).hex() if False else cm.f2dec(fx(row[0]), 12))
+                       for k, (ids_, rows_) in m['constraints'].items() for i, row in zip(ids_, rows_))
+        got = Counter()
+        if 'read' in r:
+            for k in ('cflux', 'pure_cflux'):
+                if k in r['read']['constraints']:
+                    ids_, rows_ = r['read']['constraints'][k]
+                    got.update((k, i, cm.f2dec(fx(row[0]), 12)) for i, row in zip(ids_, rows_))
+        ctx.case(['pure', m['constraints']], nontrivial=True)
+        ctx.count('pure_write:' + '+'.join(sorted(m['constraints'])))
+        n_eval += 1
+        if got != want:
+            both = sorted(m['constraints']) == ['cflux', 'pure_cflux']
+            known = ctx.violation('impl-violation', {'mesh': m},
+                                  {'prescriptions': sorted(want.elements())},
+                                  {'prescriptions': sorted(got.elements()),
+                                   'errors': [r.get('write_error'), r.get('read_error')]},
+                                  'C03_cflux_with_pure_cflux_refuted / oracle on implementation',
+                                  found_input=True,
+                                  signature={'oracle': 'roundtrip-pure', 'kinds': '+'.join(sorted(m['constraints'])),
+                                             'relabelled_as_pure': both and 'read' in r and all(
+                                                 k == 'pure_cflux' for (k, _, _) in got)},
+                                  what='round trip of cflux / pure_cflux changes the prescriptions')
+            if not known:
+                impl_bad += 1
     ctx.notes['search_evaluations'] = n_eval
     ctx.notes['impl_property_failures'] = impl_bad
 
@@ -719,6 +836,17 @@ def main(ctx):
         ctx.violation('correspondence', {'group_cases': ng_bad[:5]}, 'node groups = ALL + !NGROUP blocks',
                       'femio read other node groups', 'correspondence C03 node groups',
                       found_input=False, signature={'kind': 'correspondence', 'side': 'node_groups'})
+    if bad_pure:
+        ctx.violation('correspondence', {'items': bad_pure[:10],
+                                         'cnt': [pc['cnt'] for pc in pcases if pc['id'] in bad_pure][:3]},
+                      'Pure.read_cntx_with / write_cntx_of', 'femio differs',
+                      'correspondence C03 pure_cflux: label decision of _read_cnt_cflux / !CFLUX, TYPE=PURE section',
+                      found_input=False, signature={'kind': 'correspondence', 'side': 'pure'},
+                      what='femio reads / writes !CFLUX sections differently from the model')
+    if tie_ok and proof_ok and sec_ok and not pure_ok:
+        ctx.violation('proof-broken', {}, 'PropsPure.v checks', 'does not check',
+                      'C03_read_cntx_conservative / C03_cflux_with_pure_cflux_refuted', found_input=False,
+                      signature={'kind': 'proof-broken', 'file': 'PropsPure'})
     if bad_gen:
         for n_ in bad_gen[:2]:
             t = mask_tables[n_]
@@ -747,7 +875,7 @@ def main(ctx):
                       'C03_cnt_sections_as_modelled', found_input=impl_bad > 0 or bool(bad_text),
                       signature={'kind': 'cfg-sections'},
                       what='per-run obligation on the translated section table of write_cnt fails')
-    if model_ok and None in (bad_text, bad_read, bad_fmt, bad_gen):
+    if model_ok and None in (bad_text, bad_read, bad_fmt, bad_gen, bad_pure):
         ctx.violation('correspondence', {}, 'correspondence files compile', 'coqc failed',
                       'correspondence C03', found_input=False,
                       signature={'kind': 'correspondence', 'side': 'coqc'})
